@@ -170,17 +170,17 @@ func (r *mergeRig) childEmit(i int, msg mocrelay.ServerMsg) ([]mocrelay.ServerMs
 // ---- model ------------------------------------------------------------------------------------
 
 type reqInstance struct {
-	filters   []*mocrelay.ReqFilter
-	eose      []bool // per child
-	complete  bool   // merged EOSE expected/sent
-	closed    bool
-	lastTs    int64
-	hasLast   bool
-	seen      map[string]bool
-	forwarded int
+	filters    []*mocrelay.ReqFilter
+	eose       []bool // per child
+	complete   bool   // merged EOSE expected/sent
+	closed     bool
+	lastTs     int64
+	hasLast    bool
+	seen       map[string]bool
+	forwarded  int
 	dropWorthy bool
-	emitters  map[int]bool
-	liveAfter bool
+	emitters   map[int]bool
+	liveAfter  bool
 }
 
 type okSubmission struct {
@@ -246,10 +246,10 @@ func TestMergeC08C09(t *testing.T) {
 		childGot := make([][]mocrelay.ClientMsg, n)
 		// REQ model
 		inst := map[string]*reqInstance{}
-		owesEOSE := make([]map[string]bool, n)  // child i received REQ s (current instance) and has not sent EOSE
-		everReq := make([]map[string]bool, n)   // child i ever received a REQ for s
-		owesOK := make([][]string, n)           // event ids child i still has to answer (in order received)
-		owesCount := make([][]string, n)        // count sub ids
+		owesEOSE := make([]map[string]bool, n) // child i received REQ s (current instance) and has not sent EOSE
+		everReq := make([]map[string]bool, n)  // child i ever received a REQ for s
+		owesOK := make([][]string, n)          // event ids child i still has to answer (in order received)
+		owesCount := make([][]string, n)       // count sub ids
 		for i := 0; i < n; i++ {
 			owesEOSE[i], everReq[i] = map[string]bool{}, map[string]bool{}
 		}
